@@ -17,8 +17,10 @@
 
   Every regular expression is anchored at the start of the remaining text and is modelled by a
   function that returns what the match consumed; where Python's backtracking matters it is spelled
-  out (string literals, the bracket scanner, the axis prefix, `.+ … $`).  ASCII-exact: Python's `\d`,
-  `str.lower()`, `str.strip()` are modelled on ASCII input only (the tie generates ASCII).
+  out (string literals, the bracket scanner, the axis prefix, `.+ … $`).  ASCII-exact: Python's `\d` and
+  `str.lower()` are modelled on ASCII input only (the tie generates ASCII).  White space is exact: the regular
+  expressions of xpath/*.py name `[ \t]` (`isSpTab`), the `str.strip()` calls between them (`strip`) remove all of
+  `str.isspace()`.
 
   Fuel: every loop iteration and every nested level consumes at least one character and at most two
   units of fuel; all entry points start with more than twice the length of the text.
